@@ -19,7 +19,8 @@ func checkC08(r *Run) {
 	r.Rule("R3", "a nil iterable yields (nil, nil); anything that is neither map, slice, array nor Iterator ends in a non-nil error", 2)
 	r.Rule("R4", "break/continue objects carry the output accumulated so far plus the inner object's value, and the block evaluator returns in that iteration", 3)
 	r.Rule("R5", "the parser's in-loop flag is saved on entry, set before anything that can parse a block, and restored by a defer on every exit; never reset to a constant", 2)
-	forLoopsRule(r)
+	forLoopsRuleSSA(r)
+	forIterableRule(r)
 	coreBlockRules(r, "R4", "R4")
 	inLoopFlagRule(r, "R5")
 }
@@ -273,6 +274,17 @@ func forLoopsRule(r *Run) {
 			}
 		}
 	}
+}
+
+// forIterableRule (R3): a nil iterable yields (nil, nil); anything that cannot be iterated is an error.
+func forIterableRule(r *Run) {
+	w := r.W
+	f := w.evalMethod("ForExpression")
+	if f == nil {
+		r.Lost("R3", "for evaluator")
+		return
+	}
+	info := f.Pkg.TypesInfo
 	// R3
 	nilOK, errOK := false, false
 	inspectBody(f.Decl.Body, true, func(n ast.Node) bool {
@@ -311,6 +323,7 @@ func forLoopsRule(r *Run) {
 		r.Bad("R3", f.Name(), "non-iterable value", w.Pos(f.Decl.Pos()), "a value that is neither map, slice, array nor Iterator must be an error")
 	}
 }
+
 
 func isErrNotNil(info *types.Info, e ast.Expr) bool {
 	be, ok := unparen(e).(*ast.BinaryExpr)
